@@ -702,8 +702,10 @@ func RefTransact(sch *Schema, before DBState, ops []Op, reported map[int]string)
 						break
 					}
 					if ce := checkType(&c.Type, nv); ce != "" {
-						out.Edge = "mutate result violates " + ce
+						// the value a mutation leaves behind must conform to the column
+						// (number of elements, enum), mutation by mutation
 						bad = "constraint violation"
+						detail = "mutate:" + ce
 						break
 					}
 					staged[u][cn] = nv
